@@ -43,7 +43,7 @@ fn strat_shuffled(t: Tier) -> BoxedStrategy<Case> {
 
 /// Compare report `a` (original) with `b` (twin): money equal; quantities of `ticker` dated before
 /// `split_date` scaled by `ratio`.
-fn compare_scaled(a: &TaxReport, b: &TaxReport, ticker: &str, split_date: NaiveDate, ratio: &Rat, obs: &mut Obs) -> Result<(), String> {
+fn compare_scaled(a: &TaxReport, b: &TaxReport, ticker: &str, split_date: NaiveDate, ratio: &Rat, obs: &mut Obs, ignore_leg_gain: bool) -> Result<(), String> {
     if a.tax_years.len() != b.tax_years.len() {
         return Err(format!("tax year count {} vs {}", a.tax_years.len(), b.tax_years.len()));
     }
@@ -61,7 +61,7 @@ fn compare_scaled(a: &TaxReport, b: &TaxReport, ticker: &str, split_date: NaiveD
         }
         for (da, db) in ya.disposals.iter().zip(yb.disposals.iter()) {
             let scale = if da.ticker == ticker && da.date < split_date { ratio.clone() } else { Rat::one() };
-            disposal_scaled(da, db, &scale, obs)?;
+            disposal_scaled(da, db, &scale, obs, ignore_leg_gain)?;
         }
     }
     let ha = tool::holdings_map(a);
@@ -81,7 +81,7 @@ fn compare_scaled(a: &TaxReport, b: &TaxReport, ticker: &str, split_date: NaiveD
     Ok(())
 }
 
-fn disposal_scaled(da: &Disposal, db: &Disposal, scale: &Rat, obs: &mut Obs) -> Result<(), String> {
+fn disposal_scaled(da: &Disposal, db: &Disposal, scale: &Rat, obs: &mut Obs, ignore_leg_gain: bool) -> Result<(), String> {
     let id = format!("{} {}", da.ticker, da.date);
     if da.date != db.date || da.ticker != db.ticker {
         return Err(format!("disposal {id} vs {} {}", db.ticker, db.date));
@@ -106,9 +106,14 @@ fn disposal_scaled(da: &Disposal, db: &Disposal, scale: &Rat, obs: &mut Obs) -> 
         if (c - c2).abs() > tool::tol_money() {
             return Err(format!("{id}: leg {k:?} allowable cost {c} vs {c2}"));
         }
-        if (g - g2).abs() > tool::tol_money() {
+        if !ignore_leg_gain && (g - g2).abs() > tool::tol_money() {
             return Err(format!("{id}: leg {k:?} gain {g} vs {g2}"));
         }
+    }
+    let ta: Rat = ga.values().map(|v| v.2.clone()).sum();
+    let tb: Rat = gb.values().map(|v| v.2.clone()).sum();
+    if (&ta - &tb).abs() > tool::tol_money() {
+        return Err(format!("{id}: total gain {ta} vs {tb}"));
     }
     Ok(())
 }
@@ -159,7 +164,13 @@ pub fn check(c: &Case, obs: &mut Obs) -> Verdict {
                 let r1 = tool::calc(&twin);
                 match (&r0, &r1) {
                     (Outcome::Ok(a), Outcome::Ok(b)) => {
-                        if let Err(e) = compare_scaled(a, b, &sp.ticker, sp.date, &ratio, obs) {
+                        if let Err(e) = compare_scaled(a, b, &sp.ticker, sp.date, &ratio, obs, false) {
+                            // F17: removing the split line can make two same-day sales of another
+                            // security adjacent (or the split line separated them)
+                            let mut scratch = Obs::default();
+                            if (tool::has_nonadjacent_unequal_sells(ledger) || tool::has_nonadjacent_unequal_sells(&twin)) && compare_scaled(a, b, &sp.ticker, sp.date, &ratio, &mut scratch, true).is_ok() {
+                                return tool::f17_verdict();
+                            }
                             return Verdict::fail(format!(
                                 "rewriting the ledger in post-split units changes the report: {e}\n--- original ---\n{}\n--- twin (split of {} removed) ---\n{}",
                                 crate::led::to_dsl(ledger),
